@@ -978,6 +978,121 @@ def _items_loop(loop: ast.For, what: str) -> tuple[str, str]:
     raise Bad(f"{what}: expected `for <key>, <value> in <dict>.items()`")
 
 
+# --------------------------------------------------------------------------- instance state
+def _instance_state(tree: ast.AST, cls_name: str) -> tuple[list[str], list[str]]:
+    """(attributes `__init__` assigns from its parameters, everything that could carry state from one call on an
+    instance to the next).  The second list is empty iff: the class has no base class and no class-level mutable
+    attribute; `__init__` only validates its parameters (`if …: raise`) and assigns `self.<attr> = <pure expression
+    of the parameters>`; no other method (or function nested in one) assigns to / deletes / calls a method of
+    `self.<attr>`, uses `global` / `nonlocal`, writes through a name that is not its own local or parameter, has a
+    mutable default argument or a caching decorator.  Then the result of a method call is a function of the
+    constructor constants and the arguments of THAT call only."""
+    cls = next((n for n in ast.walk(tree) if isinstance(n, ast.ClassDef) and n.name == cls_name), None)
+    if cls is None:
+        raise Bad(f"class {cls_name} not found")
+    attrs: list[str] = []
+    state: list[str] = []
+
+    def note(where: str, what: str) -> None:
+        e = f"{where}: {what}".replace('"', "'").replace("\\", "/")[:90]
+        if e not in state:
+            state.append(e)
+
+    def immutable(e: ast.AST) -> bool:
+        return isinstance(e, ast.Constant) or (isinstance(e, ast.Tuple) and all(immutable(x) for x in e.elts)) \
+            or (isinstance(e, ast.UnaryOp) and immutable(e.operand))
+
+    if cls.bases or cls.keywords:
+        note("class", "has base classes " + ", ".join(ast.unparse(b) for b in cls.bases))
+    methods = [m for m in cls.body if isinstance(m, (ast.FunctionDef, ast.AsyncFunctionDef))]
+    for st in _no_doc(cls.body):
+        if isinstance(st, (ast.FunctionDef, ast.AsyncFunctionDef)) or (isinstance(st, ast.AnnAssign) and st.value is None):
+            continue
+        if isinstance(st, (ast.Assign, ast.AnnAssign)) and st.value is not None and immutable(st.value):
+            continue
+        note("class", "class-level statement " + ast.unparse(st).splitlines()[0])
+    init = next((m for m in methods if m.name == "__init__"), None)
+    if init is not None:
+        params = {a.arg for a in init.args.args[1:] + init.args.kwonlyargs}
+        slf = init.args.args[0].arg if init.args.args else "self"
+        for st in _no_doc(init.body):
+            if isinstance(st, ast.Expr) and ast.unparse(st.value) == "super().__init__()":
+                continue
+            if isinstance(st, ast.If) and not st.orelse and all(isinstance(x, ast.Raise) for x in st.body) \
+                    and _loaded_names(st.test) <= params:
+                continue
+            tgt = st.targets[0] if isinstance(st, ast.Assign) and len(st.targets) == 1 else getattr(st, "target", None)
+            val = getattr(st, "value", None)
+            if isinstance(st, (ast.Assign, ast.AnnAssign)) and isinstance(tgt, ast.Attribute) and isinstance(tgt.value, ast.Name) \
+                    and tgt.value.id == slf and val is not None and _is_pure(val) and _loaded_names(val) <= params \
+                    and not any(isinstance(x, (ast.Attribute, ast.Subscript, ast.GeneratorExp, ast.ListComp)) for x in ast.walk(val)) \
+                    and tgt.attr not in attrs:
+                attrs.append(tgt.attr)
+                continue
+            note("__init__", ast.unparse(st).splitlines()[0])
+    names_of_methods = {m.name for m in methods}
+    for m in methods:
+        if m.name == "__init__":
+            continue
+        slf = m.args.args[0].arg if m.args.args and not any(ast.unparse(d) == "staticmethod" for d in m.decorator_list) else None
+        for d in m.decorator_list:
+            if ast.unparse(d) not in ("staticmethod", "property", "classmethod"):
+                note(m.name, "decorator " + ast.unparse(d))
+        for f in [m] + [x for x in ast.walk(m) if isinstance(x, (ast.FunctionDef, ast.AsyncFunctionDef, ast.Lambda)) and x is not m]:
+            for dflt in f.args.defaults + [k for k in f.args.kw_defaults if k is not None]:
+                if not immutable(dflt):
+                    note(m.name, "mutable default argument " + ast.unparse(dflt))
+        local = {a.arg for f in [m] + [x for x in ast.walk(m) if isinstance(x, (ast.FunctionDef, ast.AsyncFunctionDef, ast.Lambda))]
+                 for a in f.args.args + f.args.kwonlyargs + f.args.posonlyargs
+                 + ([f.args.vararg] if f.args.vararg else []) + ([f.args.kwarg] if f.args.kwarg else [])}
+        local |= {n.id for n in ast.walk(m) if isinstance(n, ast.Name) and isinstance(n.ctx, (ast.Store, ast.Del))}
+        local |= {x.name for x in ast.walk(m) if isinstance(x, (ast.FunctionDef, ast.AsyncFunctionDef)) and x is not m}
+        for n in ast.walk(m):
+            if isinstance(n, (ast.Global, ast.Nonlocal)):
+                note(m.name, ast.unparse(n))
+            tgts: list[ast.AST] = []
+            if isinstance(n, ast.Assign):
+                tgts = list(n.targets)
+            elif isinstance(n, (ast.AugAssign, ast.AnnAssign, ast.For, ast.AsyncFor, ast.NamedExpr)):
+                tgts = [n.target]
+            elif isinstance(n, ast.Delete):
+                tgts = list(n.targets)
+            elif isinstance(n, (ast.With, ast.AsyncWith)):
+                tgts = [i.optional_vars for i in n.items if i.optional_vars is not None]
+            elif isinstance(n, ast.comprehension):
+                tgts = [n.target]
+            flat: list[ast.AST] = []
+            while tgts:
+                t = tgts.pop()
+                if isinstance(t, (ast.Tuple, ast.List)):
+                    tgts.extend(t.elts)
+                elif isinstance(t, ast.Starred):
+                    tgts.append(t.value)
+                else:
+                    flat.append(t)
+            for t in flat:
+                if isinstance(t, (ast.Attribute, ast.Subscript)):
+                    b = _base_name(t)  # type: ignore[arg-type]
+                    if b is None or (slf is not None and b == slf):
+                        note(m.name, "writes " + ast.unparse(t))
+                    elif b not in local:
+                        note(m.name, "writes through the non-local name " + ast.unparse(t))
+            if isinstance(n, ast.Call):
+                f = n.func
+                src = ast.unparse(f)
+                if src in ("setattr", "delattr", "vars", "globals", "object.__setattr__") or ".__dict__" in ast.unparse(n):
+                    note(m.name, "calls " + ast.unparse(n)[:50])
+                if isinstance(f, ast.Attribute):
+                    b = _base_name(f.value)
+                    if slf is not None and b == slf and not (isinstance(f.value, ast.Name) and f.attr in names_of_methods):
+                        note(m.name, "calls a method of an attribute: " + src)  # self.<attr>.<m>(…) / self.<unknown>(…)
+                    elif b is not None and b not in local and b not in (slf, "math") and isinstance(f.value, ast.Name) \
+                            and f.attr in ("append", "extend", "insert", "pop", "remove", "clear", "update", "setdefault",
+                                           "add", "discard", "sort", "reverse", "popitem", "__setitem__"):
+                        note(m.name, "mutates the non-local name " + src)
+    return attrs, state
+
+
 # --------------------------------------------------------------------------- generate
 HEADER = """import Frequenz.Model.Prelude
 
@@ -1471,6 +1586,24 @@ def generate(repo: pathlib.Path) -> str:
         add("poolGroup" + role, hit.value, 2)
     if not any(_is_call(n, "_aggregate_battery_power_bounds", 1) for n in ast.walk(pc)):
         raise Bad("PowerBoundsCalculator.calculate: battery bounds are no longer aggregated by _aggregate_battery_power_bounds")
+
+    # ---- what an algorithm object remembers between two calls
+    attrs, state = _instance_state(algo, "BatteryDistributionAlgorithm")
+    if attrs != ["_distributor_exponent"]:
+        state.append("__init__: instance attributes are " + ", ".join(attrs))
+
+    def lean_list(xs: list[str]) -> str:
+        return "[" + ", ".join('"' + x + '"' for x in xs) + "]"
+
+    raw("/-- `BatteryDistributionAlgorithm.__init__`: the attributes of an instance; each is assigned once, from a pure\n"
+        "expression of the constructor's parameters -/\n"
+        f"def instanceAttrs : List String := {lean_list(attrs)}\n")
+    raw("/-- Everything in `BatteryDistributionAlgorithm` that could carry state from one call on an instance to the next:\n"
+        "attributes not determined by the constructor's parameters, class-level mutable attributes, base classes, methods\n"
+        "that write to / call a method of `self.<attr>`, `global` / `nonlocal`, writes through non-local names, mutable\n"
+        "default arguments, decorators.  Empty = a call's result depends on the constructor constants and on the\n"
+        "arguments of that call only (used by `C02_history_free`). -/\n"
+        f"def perCallState : List String := {lean_list(state)}\n")
 
     roles = {id(q[2]) for q in queue if q[0] == "def"} | {id(q[1]) for q in queue if q[0] == "role"}
     for q in queue:
